@@ -3,6 +3,7 @@ package rules
 import (
 	"fmt"
 	"go/ast"
+	"go/constant"
 	"go/token"
 	"go/types"
 	"sort"
@@ -573,6 +574,71 @@ func checkFailureChainRepair(c *Ctx, res *report.Result, f *ssa.Function, rule s
 					}
 				}
 			}
+		}
+	}
+	// trip count: the loop visits exactly as many links as the named depth constant says. The counter is a
+	// header phi (constant init, itself + 1); with `counter < K` it visits K - init links, with `<=` one more.
+	if fd := f.Syntax(); fd != nil {
+		if pk := c.Prog.ByPath[f.Package().Pkg.Path()]; pk != nil {
+			ast.Inspect(fd, func(n ast.Node) bool {
+				fs, ok := n.(*ast.ForStmt)
+				if !ok || fs.Cond == nil {
+					return true
+				}
+				ast.Inspect(fs.Cond, func(m ast.Node) bool {
+					be, ok := m.(*ast.BinaryExpr)
+					if !ok || (be.Op != token.LSS && be.Op != token.LEQ) {
+						return true
+					}
+					id, ok := be.Y.(*ast.Ident)
+					if !ok {
+						return true
+					}
+					cobj, ok := pk.TypesInfo.Uses[id].(*types.Const)
+					if !ok {
+						return true
+					}
+					want, exact := constant.Int64Val(cobj.Val())
+					if !exact {
+						return true
+					}
+					// SSA side: the compared counter's init and step
+					trips := int64(-1)
+					step := int64(0)
+					for _, b := range f.Blocks {
+						iff := lastIfOf(b)
+						if iff == nil {
+							continue
+						}
+						bo, ok := iff.Cond.(*ssa.BinOp)
+						if !ok || (bo.Op != token.LSS && bo.Op != token.LEQ) {
+							continue
+						}
+						k, okk := flow.ConstInt(bo.Y)
+						phi, okp := bo.X.(*ssa.Phi)
+						if !okk || !okp || k != want {
+							continue
+						}
+						for _, e := range phi.Edges {
+							if i0, isC := flow.ConstInt(e); isC {
+								trips = k - i0
+								if bo.Op == token.LEQ {
+									trips++
+								}
+							} else if inc, isB := e.(*ssa.BinOp); isB && inc.Op == token.ADD && inc.X == ssa.Value(phi) {
+								step, _ = flow.ConstInt(inc.Y)
+							}
+						}
+					}
+					if trips < 0 || step == 0 {
+						res.Undec(rule, "repairInvalidUTF8InFailure: the loop visits "+cobj.Name()+" links", c.Prog.Pos(fs.Pos()), "loop counter not recognised as a header phi with constant init and step")
+						return true
+					}
+					res.Check(trips == want && step == 1, rule, "repairInvalidUTF8InFailure: the loop visits "+cobj.Name()+" links", c.Prog.Pos(fs.Pos()), fmt.Sprintf("%d iterations, %s = %d", trips, cobj.Name(), want), fmt.Sprintf("the loop visits %d links (step %d) but %s = %d: a chain of exactly %d links is rejected / left unrepaired at its last link", trips, step, cobj.Name(), want, want))
+					return true
+				})
+				return true
+			})
 		}
 	}
 	res.Check(bound >= 1, rule, "repairInvalidUTF8InFailure: depth bound >= 1", fnPos(c.Prog, f), fmt.Sprintf("maxFailureDepth = %d", bound), fmt.Sprintf("depth bound is %d: no link would be repaired", bound))
